@@ -13,5 +13,6 @@ for P in "$@"; do
   s=$(date +%s)
   VERIF_ROOT=$ROOT $B/simrun -prop $P -tier ${TIER:-quick} ${RUNS:+-runs $RUNS} ${WALL:+-wall $WALL} -bin $B/h.test > $ROOT/$P.log 2>&1; rc=$?
   echo "$NAME $P rc=$rc $(( $(date +%s)-s ))s :: $(grep -a -A2 '^VIOLATION' $ROOT/$P.log | head -3 | tr '\n' ' ' | cut -c1-330) $(grep -a HARNESS-TROUBLE $ROOT/$P.log | head -1 | cut -c1-200)"
+  if [ $rc = 2 ]; then cp $ROOT/$P.log /var/tmp/mut-$NAME-$P.trouble.log; fi
   if [ $rc = 1 ] && [ -n "$KEEP_REPLAY" ]; then mkdir -p $KEEP_REPLAY; cp $(grep -a -m1 '^VIOLATION' $ROOT/$P.log | sed 's/.*replay=//') $KEEP_REPLAY/$NAME-$P.replay.json 2>/dev/null; fi
 done
